@@ -11,3 +11,6 @@ import Theorems.C02
 #print axioms C02.bm_reduction
 #print axioms C02.bm_light_small
 #print axioms C02.bm_corrects_small
+#print axioms C02.reed_ok
+#print axioms C02.reed_decoder_corrects
+#print axioms C02.reed_instances_in_catalogue
